@@ -40,6 +40,30 @@ def run(tier, replay=None):
             run.transitions += r.generated
         if not run.samples:
             run.samples = C.read_ndjson(tp)[:14]
+    # growth beyond the property: two appenders alive on one path, each with a thread of its own (SharedFile.tla) - the
+    # design by TLC (with the negative control: whole records are NOT promised above the buffer size), then the files
+    # real appenders leave behind, each of which must be reachable in the specification
+    sf = C.run_tlc("MC_SharedFile", "MC_SharedFile.cfg", "c04_shared", workers=2, timeout=600, coverage=False)
+    if sf.inv_violated:
+        run.mismatch({"kind": "model", "invariant": sf.inv_violated}, {"tlc": sf.error_text[:4000]})
+    run.add_tlc(sf)
+    neg = C.run_tlc("MC_SharedFile", "MC_SharedFile_neg.cfg", "c04_shared_neg", workers=2, timeout=300, coverage=False)
+    if neg.inv_violated != "AllWhole":
+        raise C.ToolError("negative control: SharedFile.tla does not refute AllWhole")
+    stp = os.path.join(wd, "shared.ndjson")
+    nshared = 80 if tier == "quick" else 1500
+    p = C.run_harness(["sharedfile", stp, str(nshared), str(C.seed() + 11)], timeout=1800)
+    ssum = json.loads(p.stdout.strip().splitlines()[-1])
+    for pr in ssum["problems"]:
+        run.mismatch({"kind": "shared file: " + pr["what"]}, pr)
+    if ssum["scenarios"]:
+        r = C.validate_trace(run, "Trace_SharedFile", "Trace_SharedFile.cfg", "c04_shared_trace", stp, timeout=1800,
+                             key={"kind": "shared file: no behaviour of the specification leaves this file"}, linear=False)
+        if r:
+            run.states += r.distinct
+            run.transitions += r.generated
+    run.traces += ssum["scenarios"]
+    run.extra = {"shared_file_scenarios": ssum["scenarios"], "shared_file_scenarios_with_alternating_appenders": ssum["interleaved"]}
     run.evaluations = total_events
     run.nontrivial = run.traces
     run.rule = ("seeded scenarios of 1-3 real threads x 1-3 records with chunk shapes around the 1 KiB buffer (empty, "
